@@ -781,6 +781,17 @@ class BuiltinsMixin(AccessMixin):
                 return I.mk("bytearray.copy", bcopy)
             if name == "hex":
                 return I.mk("bytearray.hex", lambda a, k, n, f: SymStr(("hex", id(obj))))
+            if name in ("ljust", "rjust") and isinstance(obj, Buf) and obj.cells is not None:
+                def just(a, k, n, f):
+                    width = norm_int(a[0])
+                    fill = a[1] if len(a) > 1 else b" "
+                    fillv = fill[0] if isinstance(fill, (bytes, bytearray)) and len(fill) == 1 else (
+                        norm_int(fill.cells[0]) if isinstance(fill, Buf) and fill.cells is not None and len(fill.cells) == 1 else None)
+                    if not isinstance(width, int) or fillv is None:
+                        return Unknown("%s with dynamic width / fill" % name)
+                    pad = [fillv] * max(0, width - len(obj.cells))
+                    return Buf(cells=(list(obj.cells) + pad) if name == "ljust" else (pad + list(obj.cells)), origin=f.where(n))
+                return I.mk("bytearray." + name, just)
             if name in ("extend", "append") and isinstance(obj, Buf):
                 def bext(a, k, n, f):
                     if name == "append":
